@@ -89,6 +89,13 @@ def main():
         if 'compile' in pre:
             print(json.dumps({'error': 'sibling spec does not compile: %s' % pre['compile']}))
             return
+    if job['history'] == 'after-failed':
+        # a spec that the frontend accepts but on which backends stop half-way (two routes whose generated names coincide): whatever
+        # the aborted run left behind must not reach the next run
+        pre, _ = generate(job['failing'], None, root, 'f', job.get('args'))
+        if 'compile' in pre:
+            print(json.dumps({'error': 'failing spec does not compile: %s' % pre['compile']}))
+            return
     if job['history'] == 'after-other-options':
         generate(job['specs'], job.get('whitelist'), root, 'o', job.get('pre_args'))
     ISOLATED[0] = job['history'] == 'isolated'
